@@ -143,7 +143,10 @@ class Gen:
             E = r.randint(0, 2)
             if E != 0 and self.len[j] < n:
                 E = 0
-            self.emit("foreach %d %d %d %d" % (k, j, E, self.small()))
+            p = self.small()
+            if self.len[j] == 0:
+                return          # an empty array inside a scope is an untyped pointer (memory, not this property)
+            self.emit("foreach %d %d %d %d" % (k, j, E, p))
             return self.dirty(j)
         if op == "reduce":
             R = r.randint(0, 8)
@@ -505,21 +508,12 @@ CORPUS = [
 ]
 
 
-def kernel_cache_dir():
+def kernel_cache_dir(probe_key):
     """occa's kernel cache is keyed by the OKL source and the build properties, not by the translator that turns
     it into C++: a change of the OKL front end (e.g. @tile) would be hidden by binaries cached earlier.  The cache
-    directory of this check is therefore keyed by the sources that decide what a cached binary contains."""
-    h = hashlib.sha1()
-    # (what the functional/loops code puts INTO the OKL source and the properties is hashed by occa itself)
-    roots = ["src/occa/internal/lang", "src/occa/internal/modes/serial", "src/occa/internal/modes/openmp"]
-    for root in roots:
-        for d, _, fs in sorted(os.walk(os.path.join(REPO, root))):
-            for f in sorted(fs):
-                if f.endswith((".cpp", ".hpp", ".tpp", ".h")):
-                    p = os.path.join(d, f)
-                    h.update(os.path.relpath(p, REPO).encode())
-                    h.update(open(p, "rb").read())
-    return os.path.join(BUILD, "occa_cache_func", h.hexdigest()[:12])
+    directory of this check is therefore keyed by what the tree's translator makes of two probe kernels (tiled,
+    outer and inner loops in Serial and OpenMP mode; computed by translate/gen_range.py)."""
+    return os.path.join(BUILD, "occa_cache_func", probe_key or "nokey")
 
 
 def main(argv):
@@ -540,7 +534,7 @@ def main(argv):
     ck.prove("C23")
     hb = ck.harness("h_functional")
     db = ck.driver("drv_func")
-    env = {"OCCA_CACHE_DIR": kernel_cache_dir(), "OMP_NUM_THREADS": "4",
+    env = {"OCCA_CACHE_DIR": kernel_cache_dir(getattr(gen_range.gen, "probe_key", None)), "OMP_NUM_THREADS": "4",
            # the JIT kernels are ASan-instrumented too: an out-of-bounds access inside a kernel is a report, not luck
            "OCCA_CXXFLAGS": "-O1 -g -fsanitize=address -fno-omit-frame-pointer",
            # an occa::exception thrown while a kernel is being built leaks parser objects: not this property
